@@ -181,6 +181,12 @@ def strategy(draw):
         cols = [c for c in spec["columns"] if not c.get("regex") and c["name"] in names and names.count(c["name"]) == 1]
         if cols:
             spec = {"kind": "column", "columns": [draw(st.sampled_from(cols))]}
+    if spec.get("kind") in ("series", "column") and bad and n >= 2 and draw(st.integers(0, 2)) == 0:
+        # array-like schemas (SeriesSchema, a standalone Column) draw their sample in a code path of their own: a seeded
+        # sample of some of the rows of data with violating rows - the verdict hinges on which rows it draws
+        opts = {"head": None, "tail": None, "sample": draw(st.integers(1, n - 1)), "random_state": draw(st.integers(0, 50))}
+        if draw(st.integers(0, 3)) == 0:
+            opts["head" if draw(st.booleans()) else "tail"] = draw(st.integers(0, 1))
     return {"spec": spec, "table": base["table"], "opts": opts}
 
 
